@@ -69,9 +69,55 @@ import itertools
 _SERIAL = itertools.count(1)
 
 
+def _eta_expand(d):
+    """A crate-local function passed by name where a closure could stand (`iter.map(helper)`, `opt.and_then(Self::first)`)
+    is the capture-less closure `|x| helper(x)`: rewrite the operand into exactly that closure (a synthetic closure body
+    with one call), so that every recogniser and every view treats both spellings alike."""
+    if d.get('_eta_done'):
+        return
+    d['_eta_done'] = True
+    by_uid = {b['uid']: b for b in d['bodies']}
+    new_bodies = []
+    for b in list(d['bodies']):
+        for bi, blk in enumerate(b['blocks']):
+            t = blk['term']
+            if t.get('k') != 'call' or blk.get('cleanup'):
+                continue
+            for ai, a in enumerate(t.get('args') or []):
+                f = a.get('fn') if isinstance(a, dict) and a.get('k') == 'const' else None
+                if not f:
+                    continue
+                cu = f.get('resolved_uid') or f.get('uid')
+                cb = by_uid.get(cu)
+                if cb is None or cb['kind'] not in ('Fn', 'AssocFn') or not (f.get('local') or str(cu).startswith('crdts::')):
+                    continue
+                n = cb['arg_count']
+                syn = '%s::{eta#%d.%d}' % (b['uid'], bi, ai)
+                cty = {'k': 'closure', 'def': syn, 'uid': syn, 's': '{eta %s}' % (cb.get('name') or cu)}
+                locals_ = [cb['locals'][0], {'ty': {'k': 'ref', 'mut': False, 'ty': cty, 's': '&{eta}'}, 'mut': False}] + \
+                    [cb['locals'][i] for i in range(1, n + 1)]
+                span = t.get('span')
+                body = {'key': '%s::{eta %s}' % (b['key'], cb.get('name') or cu), 'uid': syn, 'kind': 'Closure', 'name': None, 'vis': None,
+                        'parent': b['uid'], 'impl_self': None, 'impl_trait': None, 'derived': b.get('derived', False), 'captures': [],
+                        'arg_count': n + 1, 'span': span, 'locals': locals_, 'debug': [],
+                        'blocks': [{'cleanup': False, 'stmts': [],
+                                    'term': {'k': 'call', 'callee': f,
+                                             'args': [{'k': 'move', 'place': {'local': i + 1, 'proj': []}} for i in range(1, n + 1)],
+                                             'dest': {'local': 0, 'proj': []}, 'target': 1, 'span': span}},
+                                   {'cleanup': False, 'stmts': [], 'term': {'k': 'return', 'span': span}}]}
+                new_bodies.append(body)
+                nl = len(b['locals'])
+                b['locals'].append({'ty': cty, 'mut': False})
+                blk['stmts'].append({'k': 'assign', 'place': {'local': nl, 'proj': []},
+                                     'rv': {'k': 'agg', 'agg': 'closure', 'def': syn, 'uid': syn, 'ops': []}, 'span': span})
+                t['args'][ai] = {'k': 'move', 'place': {'local': nl, 'proj': []}}
+    d['bodies'].extend(new_bodies)
+
+
 class Facts:
     def __init__(self, d):
         self.serial = next(_SERIAL)   # cache key: id() can be reused after garbage collection
+        _eta_expand(d)
         self.d = d
         self.crate = d["crate"]
         self.bodies = [Body(b) for b in d["bodies"]]
